@@ -1445,6 +1445,9 @@ class ParserElement(ABC):
             ['This', ' this', '', ' this sentence', ' is badly punctuated', '']
         """
         includeSeparators = includeSeparators or include_separators
+        if not self.keepTabs:
+            # scan_string reports locations in the tab-expanded string
+            instring = str(instring).expandtabs()
         last = 0
         for t, s, e in self.scan_string(instring, max_matches=maxsplit):
             yield instring[last:s]
